@@ -4,13 +4,13 @@ ROOT = os.path.dirname(os.path.dirname(os.path.abspath(__file__)))
 BASE = "cd /repo && /venv/bin/python -m pytest -ra -q -p no:cacheprovider --timeout=900 --continue-on-collection-errors"
 
 CHECKS = {
- "C01": dict(technique="differential PBT against an independent reference recogniser (Hypothesis grammar derivation + mutation + soup)",
+ "C01": dict(technique="differential PBT against an independent reference recogniser (Hypothesis grammar derivation + mutation + soup); thorough tier adds a coverage-guided atheris/libFuzzer campaign with the same oracle inside the target",
              text="Generated-input search: every text is parsed through all entry points/flag combinations and compared with a reference recogniser written from the June-2018 grammar; root-cause bucketing; the named deep-nesting case is probed once.",
              note="Trusted: vlib/ref/parser.py (self-checked against committed goldens), the UNSPEC zones listed in DESIGN.md 2.1.", ref="3/C01"),
- "C02": dict(technique="differential PBT: library tree vs reference parser tree, span equality, reparse law",
+ "C02": dict(technique="differential PBT: library tree vs reference parser tree, span equality, reparse law; thorough tier adds a coverage-guided atheris/libFuzzer campaign with the same oracle inside the target",
              text="Generated accepted texts are parsed under all flag combinations; the library tree (by slot walk and by to_dict) must equal the reference parser's tree including decoded string/number values and every node span; text[s:e] of every definition/value/type node must parse back to an equal node.",
              note="Trusted: vlib/ref/parser.py incl. BlockStringValue (goldens); acceptance itself is C01's subject.", ref="3/C02"),
- "C03": dict(technique="round-trip PBT print->parse with reference-parser explanation of differences; determinism and fixpoint",
+ "C03": dict(technique="round-trip PBT print->parse with reference-parser explanation of differences; determinism and fixpoint; thorough tier adds a coverage-guided atheris/libFuzzer campaign with the round-trip oracle inside the target",
              text="Generated accepted documents and values are printed with 14 indent settings through print_ast and ASTPrinter; printed text must be accepted, parse to an equal tree (modulo positions and description block flag), print deterministically and be a fixpoint.",
              note="Trusted: tree comparison walker; reference parser only used to attribute a difference to printer vs parser.", ref="3/C03"),
  "C04": dict(technique="differential PBT against an independent reference executor over generated schemas, operations, worlds and request histories",
@@ -37,7 +37,7 @@ CHECKS = {
  "C17": dict(technique="PBT over event streams with per-event deterministic worlds and gated sources; per-event differential against the reference executor; refusal cases with pull counter",
              text="Subscription operations over generated schemas are driven with 0-8 events through plain and coroutine subscription resolvers whose sources and coroutine field resolvers await harness gates; one result per event, in order, equal to the reference executor on that event, no foreign errors; documented refusals raise before the source is pulled.",
              note="Trusted: EvWorld/Source/driver in props/c17.py, vlib/ref/exec.py.", ref="3/C17"),
- "C10": dict(technique="PBT/fuzz of whole requests (truncation sweep, token and AST mutation, bad operation names and variable payloads, faulted worlds) with a response-format validity predicate and reference-executor error matching",
+ "C10": dict(technique="PBT/fuzz of whole requests (truncation sweep, token and AST mutation, bad operation names and variable payloads, faulted worlds) with a response-format validity predicate and reference-executor error matching; thorough tier adds a coverage-guided atheris/libFuzzer campaign over raw request texts against a fixed schema",
              text="Every generated request through three entry points must return a GraphQLResult whose response is strict JSON in the specification's format (message, 1-based in-text locations, path, extensions), with data absent exactly after parse/validation failures, error paths pointing at nulls and, for executed requests, exactly one error per faulted position as computed by the reference executor.",
              note="Trusted: check_response in props/c10.py, reference parser for the parse verdict, library validation for the validation verdict (tied to the specification by C06).", ref="3/C10"),
  "C11": dict(technique="model-based PBT: schema spec -> SDL with drawn order / extension split -> build_schema -> extracted structure must equal the spec; 21 labelled invalid variants must raise a GraphQLError",
